@@ -260,6 +260,42 @@ def run_2d(ctx, p):
     ctx.nontrivial('2d', which, [float('%.9g' % x) for x in np.r_[p.get('q', p.get('a')), ths]])
 
 
+def run_multi2(ctx, p):
+    """several planar unit twists of mixed kinds (revolute about points, prismatic) held by one Twist2, exponentiated with one
+    angle or one per twist, in either unit: every revolute value rotates by its theta about its own point (what a prismatic
+    value does under degrees is not stated: judged in radians only)"""
+    sm = S()
+    kinds, data, ths, units, vec = p['kinds'], [np.asarray(d_, dtype=np.float64) for d_ in p['data']], p['thetas'], p['units'], p['vector']
+    sig = dict(api='Twist2.multi', units=units, theta='vector' if vec else 'scalar', kinds=''.join(sorted(set(kinds))))
+    try:
+        tws = [sm.Twist2.Revolute(d_) if kd == 'R' else sm.Twist2.Prismatic(d_) for kd, d_ in zip(kinds, data)]
+        T = sm.Twist2(tws)
+        k_ = 180 / PI if units == 'deg' else 1.0
+        arg = [t * k_ for t in ths] if vec else ths[0] * k_
+        X = T.exp(arg, units)
+    except Exception as e:
+        ctx.bad('motion', dict(sig, kind='raised', exc=type(e).__name__, where=_where(e)), 'Twist2 of kinds %s .exp(%s, %s) raised %r' % (kinds, ths, units, e))
+        return
+    if type(X) is not sm.SE2 or len(X) != len(kinds):
+        ctx.bad('motion', dict(sig, kind='wrong_type_or_length'), 'exp returned %s of length %d for %d twists' % (type(X).__name__, len(X), len(kinds)))
+        return
+    for i, (kd, d_, M) in enumerate(zip(kinds, data, X.data)):
+        th = ths[i] if vec else ths[0]
+        if kd == 'R':
+            R = ref.rot2_ld(th)
+            want = ref.f64(ref.rt2tr(R, np.asarray(d_, dtype=ref.LD) - R @ np.asarray(d_, dtype=ref.LD)))
+            sc = max(1.0, float(np.max(np.abs(d_))))
+        elif units == 'rad':
+            want, sc = ref.rt2tr(np.eye(2), th * d_ / np.linalg.norm(d_)), max(1.0, abs(th))
+        else:
+            continue
+        d = md(M, want)
+        ctx.judge('motion', d <= TOL * sc, dict(sig, kind='value_of_sequence_wrong', element=kd),
+                  lambda: 'element %d (%s) of Twist2 %s .exp(%s, %s) = %s, expected %s' % (i, kd, kinds, ths, units, core.short(M, 200), core.short(want, 200)))
+    ctx.cell('multi2', sig['kinds'], units, sig['theta'])
+    ctx.nontrivial('multi2', kinds, units, vec, [float('%.9g' % t) for d_ in data for t in d_])
+
+
 def run_multi3(ctx, p):
     """several unit twists (revolute about axes through points, or prismatic) held by one Twist3: scalar multiples, exp with a
     scalar, with one theta per twist and with no argument, and the reported pitch / theta / prismatic flags, value by value"""
@@ -330,7 +366,7 @@ def run_zero(ctx, p):
     ctx.nontrivial('zero', dim, [float('%.9g' % v) for v in np.r_[a1, a2]])
 
 
-RUNNERS = {'zero': run_zero, 'multi3': run_multi3, 'rev3': run_rev3, 'pris3': run_pris3, '2d': run_2d}
+RUNNERS = {'multi2': run_multi2, 'zero': run_zero, 'multi3': run_multi3, 'rev3': run_rev3, 'pris3': run_pris3, '2d': run_2d}
 
 
 def REACH():
@@ -362,6 +398,11 @@ def run(ctx):
         k = [2, 3, -1, -2][rng.integers(4)] if rng.random() < 0.4 else float(thetas(rng))
         drive(RUNNERS, ctx, 'multi3', dict(kinds=['R' if rng.random() < 0.75 else 'P' for _ in range(n)], axes=[gen.axis(rng) for _ in range(n)],
                                             pts=[gen.vec(rng, 3, 1e-3, 1e3) for _ in range(n)], k=k, thetas=[float(thetas(rng)) for _ in range(n)]))
+    for _ in range(ctx.scale(300, 6000)):
+        n = int(rng.integers(2, 5))
+        kinds = ['R' if rng.random() < 0.65 else 'P' for _ in range(n)]
+        data = [gen.vec(rng, 2, 1e-3, 1e3) if kd == 'R' else gen.axis(rng)[:2] + np.array([1e-3, 0]) for kd in kinds]
+        drive(RUNNERS, ctx, 'multi2', dict(kinds=kinds, data=data, thetas=[float(thetas(rng)) for _ in range(n)], units=['rad', 'deg'][rng.integers(2)], vector=bool(rng.integers(2))))
     for _ in range(ctx.scale(150, 2500)):
         dim = int(rng.integers(2, 4))
         n = 6 if dim == 3 else 3
